@@ -30,10 +30,10 @@ MECH = ["nutree.node:Node._search", "nutree.node:Node.find_all", "nutree.node:No
 MIN_NONTRIVIAL = {"quick": 200, "thorough": 2000}
 EXHAUSTIVE = {"quick": True, "thorough": True}
 
-STR_ALPH = ["a", "b", "ab", "abc", "B", "c"]
+STR_ALPH = ["a", "b", "ab", "abc", "B", "c", "a\nb"]  # (a name with a line break: `.` does not match it)
 # a flagged search comes *before* the plain search with the same expression (pattern caches must honour the flags)
 PATTERNS = ["\u00ab[ab]\u00bb", ["\u00aba.*", int(re.I)], ["a", int(re.I)], "a", ["[ab]", int(re.I)], "[ab]", ["ab?", int(re.I)], ".*", "a|b", "ab?", "a.*", "x", "(?i)b", ["A", int(re.I)],
-            ["a.", int(re.S)], "", "a+b*c?", ["b", int(re.I)], "b"]
+            ["a.", int(re.S)], "", "a+b*c?", ["b", int(re.I)], "b", "a.b", ["a.b", int(re.S)]]
 FLAVOURS = ["str", "int", "ids"]
 
 
